@@ -71,7 +71,7 @@ func H_C09_exec() {
 	chain := ndChoice("chain", 3)
 	body := `noise<{{ "x" }}{{ try }}t{{ end }}` + c09Exec[c][0]
 	files := []string{
-		"/main.jet", `{{ block own() }}O{{ end }}[{{ r := exec("/e.jet") }}{{ isset(r) ? r : "" }}]after{{ yield own() }}`,
+		"/main.jet", `{{ block own() }}O{{ end }}[{{ exec("/e.jet") }}]after{{ yield own() }}`,
 		"/plain.jet", `p`,
 		"/ret.jet", `{{ return "r3" }}`,
 	}
@@ -123,7 +123,7 @@ func H_C09_includeIfExists() {
 	if withCtx {
 		call = `includeIfExists("/i.jet", "C")`
 	}
-	files := []string{"/main.jet", `{{ block own() }}OWN{{ end }}{{ cv := "V" }}[{{ if ` + call + ` }}Y{{ else }}N{{ end }}]{{ . }}{{ yield own() }}{{ isset(theirs) }}`}
+	files := []string{"/main.jet", `{{ block own() }}OWN{{ end }}[{{ if ` + call + ` }}Y{{ else }}N{{ end }}]{{ . }}{{ yield own() }}{{ try }}{{ yield theirs() }}LEAK{{ catch }}{{ end }}`}
 	body := `{{ block theirs() }}{{ end }}<{{ cv }}{{ . }}>`
 	if exists {
 		switch chain {
@@ -136,7 +136,9 @@ func H_C09_includeIfExists() {
 		}
 	}
 	set := hxSet(nil, files...)
-	out, err := hxExec(set, "/main.jet", nil, "D")
+	ivars := make(VarMap)
+	ivars.Set("cv", "V")
+	out, err := hxExec(set, "/main.jet", ivars, "D")
 	vfAssert(err == nil, "renders")
 	if exists {
 		vfReach("exists")
@@ -144,9 +146,9 @@ func H_C09_includeIfExists() {
 		if withCtx {
 			ctx = "C"
 		}
-		vfAssert(out == "OWN[<V"+ctx+">Y]DOWNfalse", "existing template included in place; evaluates to true; the caller's blocks are intact afterwards")
+		vfAssert(out == "OWN[<V"+ctx+">Y]DOWN", "existing template included in place; evaluates to true; the caller's blocks are intact afterwards")
 	} else {
 		vfReach("missing")
-		vfAssert(out == "OWN[N]DOWNfalse", "missing template renders nothing; evaluates to false")
+		vfAssert(out == "OWN[N]DOWN", "missing template renders nothing; evaluates to false")
 	}
 }
